@@ -6,6 +6,15 @@
 using namespace asmjit;
 using namespace chenv;
 
+// Destination image: 8 guard bytes, DS destination bytes with symbolic previous content, DS + 8 guard bytes - all in ONE array, the
+// guards a fixed non-zero pattern. An overrun of the copy (which writes zeros or section bytes at most DS bytes past any in-bounds
+// start) then stays inside this array and changes a guard byte, so a solver counterexample is the same event in the native
+// twins; with symbolic guards and a short tail the solver could "see" an out-of-object write that natively lands unobserved
+// in a neighbouring static (or overwrites a zero with a zero).
+template<uint32_t DS> constexpr uint32_t kImgSize = 8 + DS + DS + 8;
+template<uint32_t DS> static void fill_image(uint8_t* img, uint8_t* img_before) {
+  for (uint32_t j = 0; j < kImgSize<DS>; j++) { img[j] = (j >= 8 && j < 8 + DS) ? nondet_u8() : uint8_t(0xA5); img_before[j] = img[j]; }
+}
 struct Pre { uint64_t virt, real, off; uint32_t al, bsize; };
 static Pre pre[4];
 
@@ -96,8 +105,16 @@ static bool flatten_checked(CodeHolder* c, int kf_mode) {
   return true;
 }
 
+// sec(i) is the section at position i of `_sections_by_order`; its id (= position in `_sections`, creation order) is a different
+// permutation in two of three cases, so a layout pass that walks the wrong table is visible (text keeps id 0 and stays first).
+static void permute_ids() {
+  static const uint8_t ids[3][4] = { { 0, 1, 2, 3 }, { 0, 2, 3, 1 }, { 0, 3, 1, 2 } };
+  uint32_t sel = nondet_u8() % 3;
+  for (uint32_t i = 0; i < 4; i++) { uint32_t id = ids[sel][i]; sec(i)->_section_id = id; by_id()[id] = sec(i); }
+}
 HARNESS h_flatten() {
   CodeHolder* c = make_holder(Arch::kX64, 4);
+  permute_ids();
   symbolic_sections<16>(false);
   if (flatten_checked(c, 0)) V_WITNESS("flatten-ok"); else V_WITNESS("flatten-overflow");
 }
@@ -110,12 +127,12 @@ HARNESS h_flatten_kf_C10a() {
 // ---- copy_flattened_data into a guarded destination of symbolic size 0..DS, from the state flatten() leaves
 template<uint32_t BS, uint32_t DS>
 static void flatten_copy() {
-  static uint8_t img[8 + DS + 8], img_before[8 + DS + 8];
+  static uint8_t img[kImgSize<DS>], img_before[kImgSize<DS>];
   CodeHolder* c = make_holder(Arch::kX64, 4);
   symbolic_sections<BS>(false);
   if (c->flatten() != Error::kOk) return;  // flatten's own contract: h_flatten
 
-  for (uint32_t j = 0; j < sizeof(img); j++) { img[j] = nondet_u8(); img_before[j] = img[j]; }
+  fill_image<DS>(img, img_before);
   size_t dst_size = nondet_u8() % (DS + 1);
   uint32_t flags = nondet_u32();
   bool pad_s = flags & 1, pad_t = flags & 2;
@@ -159,10 +176,10 @@ HARNESS h_flatten_copy_big() { flatten_copy<16, 64>(); }
 // never writes outside the destination, refuses iff some buffer does not fit.
 template<uint32_t BS, uint32_t DS>
 static void copy_arbitrary() {
-  static uint8_t img[8 + DS + 8], img_before[8 + DS + 8];
+  static uint8_t img[kImgSize<DS>], img_before[kImgSize<DS>];
   CodeHolder* c = make_holder(Arch::kX64, 4);
   symbolic_sections<BS>(true);
-  for (uint32_t j = 0; j < sizeof(img); j++) { img[j] = nondet_u8(); img_before[j] = img[j]; }
+  fill_image<DS>(img, img_before);
   size_t dst_size = nondet_u8() % (DS + 1);
   uint32_t flags = nondet_u32();
   bool room = true;
